@@ -225,15 +225,17 @@ Proof.
   apply in_flat_map in I. destruct I as [h [_ I]]. apply in_map_iff in I. destruct I as [s [I _]]. eauto.
 Qed.
 
-Lemma ar_no_shadow_vars : forall r, ar_no_shadow r = true -> ar_rule_index r <> AIRegular -> ar_for_vars_ok r = true.
+Lemma ar_indexed_vars_ok : forall r, ar_rule_index r <> AIRegular -> ar_for_vars_ok r = true.
 Proof.
-  intros r H N. unfold ar_no_shadow in H. unfold ar_for_vars_ok.
-  destruct (ar_rule_index r); try contradiction; auto.
+  intros r N. unfold ar_rule_index in N. unfold ar_for_vars_ok.
+  destruct (ar_shadows_target r) eqn:E; [contradiction|].
+  unfold ar_shadows_target in E. destruct (ar_r_for r) as [[[fk fv] ft]|]; auto.
+  apply orb_false_iff in E. destruct E as [E1 E2]. rewrite E1, E2. reflexivity.
 Qed.
 
 (* the filter of an indexed rule, evaluated at any instance of any target, says "is this target in the index" *)
 Lemma ar_indexed_filter : forall genv r t insts inst,
-  ar_no_shadow r = true -> ar_shape_ok r t ->
+  ar_shape_ok r t ->
   ar_instances r (ar_mk_env genv (ar_t_bindings t ++ ar_r_use r)) = Some insts -> In inst insts ->
   match ar_rule_index r with
   | AIRegular => True
@@ -241,17 +243,17 @@ Lemma ar_indexed_filter : forall genv r t insts inst,
   | AIServices ps => ar_eval (ar_mk_env genv (snd inst ++ ar_t_bindings t ++ ar_r_use r)) (ar_r_filter r) = AVBool (ar_mem2 (ar_t_host t) (ar_t_svc t) ps)
   end.
 Proof.
-  intros genv r t insts inst S Sh HI I.
+  intros genv r t insts inst Sh HI I.
   destruct (ar_rule_index r) eqn:Ei; auto.
-  - assert (V : ar_for_vars_ok r = true) by (apply ar_no_shadow_vars; auto; congruence).
+  - assert (V : ar_for_vars_ok r = true) by (apply ar_indexed_vars_ok; congruence).
     pose proof (ar_instances_extra_ok _ _ _ _ V HI I) as X.
-    unfold ar_rule_index in Ei. destruct (ar_r_to_svc r).
+    unfold ar_rule_index in Ei. destruct (ar_shadows_target r); [discriminate|]. destruct (ar_r_to_svc r).
     + destruct (ar_target_services None (ar_r_filter r)); discriminate.
     + destruct (ar_target_hosts None (ar_r_filter r)) eqn:E; try discriminate. inversion Ei; subst.
       eapply ar_target_hosts_sound_complete; eauto. exact Logic.I. apply ar_named_host; auto.
-  - assert (V : ar_for_vars_ok r = true) by (apply ar_no_shadow_vars; auto; congruence).
+  - assert (V : ar_for_vars_ok r = true) by (apply ar_indexed_vars_ok; congruence).
     pose proof (ar_instances_extra_ok _ _ _ _ V HI I) as X.
-    unfold ar_rule_index in Ei. destruct (ar_r_to_svc r) eqn:Et.
+    unfold ar_rule_index in Ei. destruct (ar_shadows_target r); [discriminate|]. destruct (ar_r_to_svc r) eqn:Et.
     + destruct (ar_target_services None (ar_r_filter r)) eqn:E; try discriminate. inversion Ei; subst.
       destruct (Sh Et) as [h [s Ht]]. subst t.
       eapply ar_target_services_sound_complete; eauto. exact Logic.I.
@@ -260,18 +262,18 @@ Proof.
 Qed.
 
 Lemma ar_fast_at_eq : forall genv r t,
-  ar_no_shadow r = true -> ar_shape_ok r t ->
+  ar_shape_ok r t ->
   (ar_rule_index r <> AIRegular -> ar_instances r (ar_mk_env genv (ar_t_bindings t ++ ar_r_use r)) <> None) ->
   ar_rule_fast_at genv r t = ar_eval_rule false genv r t.
 Proof.
-  intros genv r t S Sh F. unfold ar_rule_fast_at.
+  intros genv r t Sh F. unfold ar_rule_fast_at.
   destruct (ar_rule_index r) eqn:Ei; auto.
   - unfold ar_eval_rule.
     destruct (ar_instances r (ar_mk_env genv (ar_t_bindings t ++ ar_r_use r))) eqn:HI.
     2:{ exfalso. apply F; congruence. }
     assert (Q : forall inst, In inst l ->
               ar_eval (ar_mk_env genv (snd inst ++ ar_t_bindings t ++ ar_r_use r)) (ar_r_filter r) = AVBool (ar_mem (ar_t_host t) ns)).
-    { intros inst I. pose proof (ar_indexed_filter genv r t l inst S Sh HI I) as P. rewrite Ei in P. exact P. }
+    { intros inst I. pose proof (ar_indexed_filter genv r t l inst Sh HI I) as P. rewrite Ei in P. exact P. }
     destruct (ar_mem (ar_t_host t) ns) eqn:M.
     + f_equal. apply map_ext_in. intros inst I. unfold ar_eval_instance. rewrite (Q inst I). reflexivity.
     + symmetry. apply ar_collect_all_nil. intros inst I. unfold ar_eval_instance. rewrite (Q inst I). reflexivity.
@@ -280,7 +282,7 @@ Proof.
     2:{ exfalso. apply F; congruence. }
     assert (Q : forall inst, In inst l ->
               ar_eval (ar_mk_env genv (snd inst ++ ar_t_bindings t ++ ar_r_use r)) (ar_r_filter r) = AVBool (ar_mem2 (ar_t_host t) (ar_t_svc t) ps)).
-    { intros inst I. pose proof (ar_indexed_filter genv r t l inst S Sh HI I) as P. rewrite Ei in P. exact P. }
+    { intros inst I. pose proof (ar_indexed_filter genv r t l inst Sh HI I) as P. rewrite Ei in P. exact P. }
     destruct (ar_mem2 (ar_t_host t) (ar_t_svc t) ps) eqn:M.
     + f_equal. apply map_ext_in. intros inst I. unfold ar_eval_instance. rewrite (Q inst I). reflexivity.
     + symmetry. apply ar_collect_all_nil. intros inst I. unfold ar_eval_instance. rewrite (Q inst I). reflexivity.
@@ -309,11 +311,11 @@ Proof.
 Qed.
 
 Lemma ar_run_fast_eq : forall genv inv rules,
-  forallb ar_no_shadow rules = true -> forallb (ar_for_ok genv inv) rules = true ->
+  forallb (ar_for_ok genv inv) rules = true ->
   ar_run (ar_rule_fast_at genv) inv rules = ar_run (ar_eval_rule false genv) inv rules.
 Proof.
-  intros genv inv rules S F. apply ar_run_ext. intros r t Ir It.
-  rewrite forallb_forall in S, F.
+  intros genv inv rules F. apply ar_run_ext. intros r t Ir It.
+  rewrite forallb_forall in F.
   apply ar_fast_at_eq; auto.
   - eapply ar_targets_shape; eauto.
   - apply ar_for_ok_at with (inv := inv); auto.
@@ -329,7 +331,7 @@ Theorem ar_apply_fast_eq : forall genv inv rules,
   ar_premises genv inv rules = true -> ar_apply_fast genv inv rules = ar_apply genv inv rules.
 Proof.
   intros genv inv rules P. unfold ar_premises in P.
-  apply andb_true_iff in P. destruct P as [P P3]. apply andb_true_iff in P. destruct P as [P1 P2].
+  apply andb_true_iff in P. destruct P as [P2 P3].
   unfold ar_apply_fast, ar_apply, ar_load.
   rewrite (ar_run_fast_eq genv inv (filter ar_is_svc_rule rules)); auto using ar_forallb_filter.
   destruct (ar_run (ar_eval_rule false genv) inv (filter ar_is_svc_rule rules)) eqn:E1; auto.
@@ -346,6 +348,7 @@ Qed.
 Lemma ar_wrap_not_indexed : forall r, ar_rule_index (ar_wrap_rule r) = AIRegular.
 Proof.
   intros. unfold ar_rule_index, ar_wrap_rule, ar_wrap. simpl.
+  destruct (ar_shadows_target _); [reflexivity|].
   destruct (ar_r_to_svc r); [|reflexivity].
   destruct (ar_compared_name ar_s_host None (ar_r_filter r)); reflexivity.
 Qed.
@@ -517,13 +520,13 @@ Proof.
 Qed.
 
 Theorem ar_api_fast_eq : forall genv inv to_svc fvars f,
-  ar_api_premises inv fvars = true ->
+  ar_api_premises inv = true ->
   ar_same_keys (ar_api_fast genv inv to_svc fvars f) (ar_api_plain genv inv to_svc fvars f) = true.
 Proof.
-  intros genv inv to_svc fvars f P. unfold ar_api_premises in P. apply andb_true_iff in P. destruct P as [V NB].
+  intros genv inv to_svc fvars f NB. unfold ar_api_premises in NB.
   assert (R : forall r, ar_same_keys r r = true).
   { destruct r; simpl; auto. rewrite andb_diag. apply ar_ksubset_spec. auto. }
-  unfold ar_api_fast. destruct to_svc.
+  unfold ar_api_fast. destruct (ar_api_vars_ok fvars) eqn:V; [simpl|apply R]. destruct to_svc.
   - destruct (ar_target_services (Some fvars) f) eqn:E; [|apply R].
     unfold ar_api_plain.
     erewrite map_ext_in.
